@@ -26,10 +26,10 @@ RULE = ("random ADMGs with 1-5 nodes (quick: mostly <=4) x conjunctions of 1-4 c
         "has >= 2 conjuncts, at least one counterfactual world, the graph has an edge, and the construction merged at "
         "least one node pair or reported 'inconsistent'.")
 ASSUMPTIONS = [
-    "probability clauses (P(event') = P(event); 'inconsistent' => P(event) = 0 in every model) are NOT theorems: the Lean "
-    "development proves them only in the parts listed in Props/C18.lean (inconsistency of a merged pair carrying two values "
-    "=> probability 0 GIVEN the pair is the same random variable; see the OPEN block); they are decided here by "
-    "correspondence + exact evaluation on sampled functional SCMs (8 models per case, cardinalities 2-3)",
+    "probability clauses (P(event') = P(event); 'inconsistent' => P(event) = 0 in every model) are proved only RELATIVE to "
+    "Lemma 24 of Shpitser-Pearl for each merge the construction performs (Props/C18.lean cg_prob_partial; Lemma 24 for the "
+    "test as coded is the OPEN part); unconditionally they are decided here by correspondence + exact evaluation on sampled "
+    "functional SCMs (8 models per case, cardinalities 2-3)",
     "Python iterates over `worlds` (a set of frozensets): modelled as a list in an explicit order; the structural theorems "
     "hold for every order; the harness forces the real code through every permutation (cg.extract_interventions patched "
     "to return an ordered list) and also runs it unpatched",
@@ -37,7 +37,7 @@ ASSUMPTIONS = [
     "counterfactual variables raise TypeError in the real code and are outside the model",
     "theorems assume what NxMixedGraph.from_edges guarantees (MG.WF) and, for acyclicity, an acyclic input graph",
 ]
-EXHAUSTIVE = {"quick": False, "thorough": False}
+EXHAUSTIVE = {"quick": False, "thorough": True}   # thorough: every graph on <=2 nodes x every event with <=2 conjuncts
 LEANCHECK_MODULES = ["Y0.Model.Cg", "Y0.Props.C18"]
 
 X, W, Y, D, Z = 3, 2, 4, 0, 5   # names chosen so that int order == alphabetical order D < W < X < Y < Z
@@ -81,6 +81,8 @@ def cases(rng: random.Random, tier: str):
             c["event"] = K.sort_event(ev + [[K.mkvar(9, ev[0][0][4]), "m"]])
             c["malformed"] = "outside"
         out.append(c)
+    if tier == "thorough":
+        out += K.exhaustive_event_cases(2, 2)
     return out
 
 
@@ -252,15 +254,18 @@ def finding_key(case, res):
 
 MANIFEST = {
     "text": ("Partial proof. Lean theorems about the executable model of cg.py (Y0/Model/Cg.lean), for every graph, event and "
-             "every iteration order of the worlds: the returned counterfactual graph is acyclic when the input graph is, "
-             "its nodes are exactly the ancestors of the relabelled event, every relabelled event variable is a node, every "
-             "node is a copy V or V_w of a graph variable and every directed edge projects to an edge of the input graph "
-             "(invariants carried through the Lemma-24/25 merge loop); totality / error taxonomy (the only errors are a cyclic "
-             "input and an event variable that is not in the parallel-worlds graph). The two probability clauses "
-             "(P(event') = P(event); 'inconsistent' only for probability-zero events) have NO full theorem: they rest on the "
-             "correspondence check plus exact evaluation of both events in sampled functional SCMs with shared noise."),
+             "every iteration order of the worlds: the construction is total on acyclic graphs (the only error is the one of "
+             "topological_sort on a cyclic input); the returned counterfactual graph is acyclic when the input graph is, its "
+             "nodes are exactly the ancestors (inside it) of the relabelled event, every relabelled event variable is a node, "
+             "every directed edge lies over an edge of the input graph, the graph is well formed (invariants carried through "
+             "the Lemma-24/25 merge loop); 'inconsistent' is only reported with a witnessing pair that passed the Lemma-24 test "
+             "while carrying two values. The two probability clauses are proved RELATIVE to Lemma 24 (cg_prob_partial): for every "
+             "functional SCM, if the two nodes of each merge the construction performs agree wherever the other conjuncts "
+             "hold, then P(event') = P(event) and 'inconsistent' implies P(event) = 0 (the whole loop is composed, the support "
+             "of the event is an invariant). Lemma 24 itself for the test as coded is not mechanised: unconditionally these two "
+             "clauses rest on the correspondence check plus exact evaluation of both events in sampled functional SCMs."),
     "note": ("Trusted: Lean kernel + the three standard axioms; the hand-written model tied to cg.py by differential testing "
-             "under every order of the worlds set; Spec/Fscm.lean (functional SCMs) is read, not verified. The probability "
-             "clauses are sampled (8 random models per case, exact rationals), not proved."),
-    "technique": "Lean 4 theorems (invariants through a fold) + differential correspondence under all set-iteration orders + exact-rational functional-SCM oracle",
+             "under every order of the worlds set; Spec/Fscm.lean (functional SCMs with shared noise) is read, not verified. "
+             "The unconditional probability clauses are sampled (8 random models per case, exact rationals), not proved."),
+    "technique": "Lean 4 theorems (invariants through a fold; relative soundness of the merge loop) + differential correspondence under all set-iteration orders + exact-rational functional-SCM oracle",
 }
